@@ -161,6 +161,14 @@ func Core() []*Schema {
 		Msg("MaybeNothing", MF(1, "n", N("Nothing")), MF(2, "x", P("int32"))),
 		St("Plain", F("a", P("int32")))))
 
+	// 8a-3. maps with float keys whose values are containers (a NaN key cannot be looked up
+	// again once stored)
+	out = append(out, mk("floatkeys",
+		St("FkArrays", F("a", M("float64", A(P("int32")))), F("b", M("float32", A(P("string")))), F("z", P("byte"))),
+		St("FkMaps", F("m", M("float32", M("string", P("byte")))), F("n", M("float64", M("float64", A(P("uint16"))))), F("z", P("uint32"))),
+		Msg("FkMsg", MF(1, "r", N("FkArrays")), MF(2, "m", N("FkMaps")), MF(3, "z", P("byte"))),
+		St("FkRec", F("r", M("float64", N("FkArrays"))), F("z", P("byte")))))
+
 	// 8f. a large program: 40 records each with two map fields (thresholds on the number
 	// of definitions, file-wide counters in the generator)
 	{
